@@ -35,11 +35,12 @@ use sozu_lib::server::Server;
 
 static PORT_CURSOR: AtomicU16 = AtomicU16::new(0);
 static PORT_BASE: AtomicU16 = AtomicU16::new(11000);
-const PORTS_PER_SHARD: u16 = 1500;
+// 16 disjoint ranges between 11000 and 31800, below the ephemeral range (32768..)
+const PORTS_PER_SHARD: u16 = 1300;
 
 /// Give this process (shard `i` of a sharded run) its own port range below the ephemeral range.
 pub fn init_ports(shard: usize) {
-    PORT_BASE.store(11000 + (shard as u16 % 14) * PORTS_PER_SHARD, Ordering::SeqCst);
+    PORT_BASE.store(11000 + (shard as u16 % 16) * PORTS_PER_SHARD, Ordering::SeqCst);
     // start at a pid-dependent offset so two consecutive runs do not fight over TIME_WAIT ports
     PORT_CURSOR.store((std::process::id() % 700) as u16, Ordering::SeqCst);
 }
